@@ -32,7 +32,7 @@ m = {
     'engines': [{'name': 'lean4-proof+correspondence', 'path': 'tools/check.py', 'serves_properties': [c['property_id'] for c in checks],
                  'kind_free_text': 'Lean 4 theorems (lean/SSJ/Props) about an executable model; model tied to /repo by (A) tools/py2lean.py regenerating lean/SSJ/Gen from the Python source on every run and (B) a JSON-line correspondence harness (tools/harness) diffing the compiled model against the real code; independent Python oracles search the real code for a failing input when a proof or the correspondence breaks'}],
     'checks': checks,
-    'notes': 'Genuine defects found on the pinned tree were repaired by "fix:" commits in /repo (list in known_findings.json, fixed[]); two are recorded as known findings. See DESIGN.md.',
+    'notes': 'Genuine defects found on the pinned tree were repaired by "fix:" commits in /repo (list in known_findings.json, fixed[]); those that are not small repairs are recorded as known findings K1..K9 there and printed as KNOWN-FINDING lines. See DESIGN.md §7.',
     'not_applicable': na,
 }
 json.dump(m, open(os.path.join(VERIF, 'MANIFEST.json'), 'w'), indent=1)
